@@ -55,32 +55,32 @@ package test
 //@   ensures [ok] !br.conn0.closing && !br.conn1.closing ==> ok
 //@   ensures [d0.drop] !br.conn0.closing && !br.conn1.closing && fromID == 0 && atlock(br.dropNWrites0) > 0 ==> br.dropNWrites0 == atlock(br.dropNWrites0) - 1 && br.reorderNWrites0 == atlock(br.reorderNWrites0) && sameSeq(br.queue0to1, atlock(br.queue0to1)) && sameSeq(br.stack0, atlock(br.stack0))
 //@   ensures [d0.stack] !br.conn0.closing && !br.conn1.closing && fromID == 0 && atlock(br.dropNWrites0) <= 0 && atlock(br.reorderNWrites0) > 1 ==> br.reorderNWrites0 == atlock(br.reorderNWrites0) - 1 && sameSeq(br.queue0to1, atlock(br.queue0to1)) &&
-//@            len(br.stack0) == atlock(len(br.stack0)) + 1 && isCopy(br.stack0[atlock(len(br.stack0))], packet) &&
+//@            len(br.stack0) == atlock(len(br.stack0)) + 1 && isCopy(br.stack0[atlock(len(br.stack0))], packet) && fresh(base(br.stack0[atlock(len(br.stack0))])) &&
 //@            (forall k mathint :: {br.stack0[k]} 0 <= k && k < atlock(len(br.stack0)) ==> br.stack0[k] == atlock(br.stack0[k]))
 //@   ensures [d0.flush] !br.conn0.closing && !br.conn1.closing && fromID == 0 && atlock(br.dropNWrites0) <= 0 && atlock(br.reorderNWrites0) == 1 ==> br.reorderNWrites0 == 0 && len(br.stack0) == 0 &&
-//@            len(br.queue0to1) == atlock(len(br.queue0to1)) + atlock(len(br.stack0)) + 1 && isCopy(br.queue0to1[atlock(len(br.queue0to1))], packet) &&
+//@            len(br.queue0to1) == atlock(len(br.queue0to1)) + atlock(len(br.stack0)) + 1 && isCopy(br.queue0to1[atlock(len(br.queue0to1))], packet) && fresh(base(br.queue0to1[atlock(len(br.queue0to1))])) &&
 //@            (forall k mathint :: {br.queue0to1[k]} 0 <= k && k < atlock(len(br.queue0to1)) ==> br.queue0to1[k] == atlock(br.queue0to1[k])) &&
-//@            (forall j mathint :: {atlock(br.stack0[j])} 0 <= j && j < atlock(len(br.stack0)) ==> br.queue0to1[atlock(len(br.queue0to1)) + atlock(len(br.stack0)) - j] == atlock(br.stack0[j]))
+//@            (forall k mathint :: {br.queue0to1[k]} atlock(len(br.queue0to1)) < k && k < len(br.queue0to1) ==> br.queue0to1[k] == atlock(br.stack0[atlock(len(br.queue0to1)) + atlock(len(br.stack0)) - k]))
 //@   ensures [d0.plain] !br.conn0.closing && !br.conn1.closing && fromID == 0 && atlock(br.dropNWrites0) <= 0 && atlock(br.reorderNWrites0) <= 0 && atlock(br.filterCB0) == nil ==> sameSeq(br.stack0, atlock(br.stack0)) &&
-//@            len(br.queue0to1) == atlock(len(br.queue0to1)) + 1 && isCopy(br.queue0to1[atlock(len(br.queue0to1))], packet) &&
+//@            len(br.queue0to1) == atlock(len(br.queue0to1)) + 1 && isCopy(br.queue0to1[atlock(len(br.queue0to1))], packet) && fresh(base(br.queue0to1[atlock(len(br.queue0to1))])) &&
 //@            (forall k mathint :: {br.queue0to1[k]} 0 <= k && k < atlock(len(br.queue0to1)) ==> br.queue0to1[k] == atlock(br.queue0to1[k]))
 //@   ensures [d0.filter] !br.conn0.closing && !br.conn1.closing && fromID == 0 && atlock(br.dropNWrites0) <= 0 && atlock(br.reorderNWrites0) <= 0 && atlock(br.filterCB0) != nil ==> sameSeq(br.stack0, atlock(br.stack0)) &&
-//@            (sameSeq(br.queue0to1, atlock(br.queue0to1)) || (len(br.queue0to1) == atlock(len(br.queue0to1)) + 1 && isCopy(br.queue0to1[atlock(len(br.queue0to1))], packet) &&
+//@            (sameSeq(br.queue0to1, atlock(br.queue0to1)) || (len(br.queue0to1) == atlock(len(br.queue0to1)) + 1 && isCopy(br.queue0to1[atlock(len(br.queue0to1))], packet) && fresh(base(br.queue0to1[atlock(len(br.queue0to1))])) &&
 //@            (forall k mathint :: {br.queue0to1[k]} 0 <= k && k < atlock(len(br.queue0to1)) ==> br.queue0to1[k] == atlock(br.queue0to1[k]))))
 //@   ensures [d0.other] !br.conn0.closing && !br.conn1.closing && fromID == 0 ==> sameSeq(br.queue1to0, atlock(br.queue1to0)) && sameSeq(br.stack1, atlock(br.stack1))
 //@   ensures [d1.drop] !br.conn0.closing && !br.conn1.closing && fromID != 0 && atlock(br.dropNWrites1) > 0 ==> br.dropNWrites1 == atlock(br.dropNWrites1) - 1 && br.reorderNWrites1 == atlock(br.reorderNWrites1) && sameSeq(br.queue1to0, atlock(br.queue1to0)) && sameSeq(br.stack1, atlock(br.stack1))
 //@   ensures [d1.stack] !br.conn0.closing && !br.conn1.closing && fromID != 0 && atlock(br.dropNWrites1) <= 0 && atlock(br.reorderNWrites1) > 1 ==> br.reorderNWrites1 == atlock(br.reorderNWrites1) - 1 && sameSeq(br.queue1to0, atlock(br.queue1to0)) &&
-//@            len(br.stack1) == atlock(len(br.stack1)) + 1 && isCopy(br.stack1[atlock(len(br.stack1))], packet) &&
+//@            len(br.stack1) == atlock(len(br.stack1)) + 1 && isCopy(br.stack1[atlock(len(br.stack1))], packet) && fresh(base(br.stack1[atlock(len(br.stack1))])) &&
 //@            (forall k mathint :: {br.stack1[k]} 0 <= k && k < atlock(len(br.stack1)) ==> br.stack1[k] == atlock(br.stack1[k]))
 //@   ensures [d1.flush] !br.conn0.closing && !br.conn1.closing && fromID != 0 && atlock(br.dropNWrites1) <= 0 && atlock(br.reorderNWrites1) == 1 ==> br.reorderNWrites1 == 0 && len(br.stack1) == 0 &&
-//@            len(br.queue1to0) == atlock(len(br.queue1to0)) + atlock(len(br.stack1)) + 1 && isCopy(br.queue1to0[atlock(len(br.queue1to0))], packet) &&
+//@            len(br.queue1to0) == atlock(len(br.queue1to0)) + atlock(len(br.stack1)) + 1 && isCopy(br.queue1to0[atlock(len(br.queue1to0))], packet) && fresh(base(br.queue1to0[atlock(len(br.queue1to0))])) &&
 //@            (forall k mathint :: {br.queue1to0[k]} 0 <= k && k < atlock(len(br.queue1to0)) ==> br.queue1to0[k] == atlock(br.queue1to0[k])) &&
-//@            (forall j mathint :: {atlock(br.stack1[j])} 0 <= j && j < atlock(len(br.stack1)) ==> br.queue1to0[atlock(len(br.queue1to0)) + atlock(len(br.stack1)) - j] == atlock(br.stack1[j]))
+//@            (forall k mathint :: {br.queue1to0[k]} atlock(len(br.queue1to0)) < k && k < len(br.queue1to0) ==> br.queue1to0[k] == atlock(br.stack1[atlock(len(br.queue1to0)) + atlock(len(br.stack1)) - k]))
 //@   ensures [d1.plain] !br.conn0.closing && !br.conn1.closing && fromID != 0 && atlock(br.dropNWrites1) <= 0 && atlock(br.reorderNWrites1) <= 0 && atlock(br.filterCB1) == nil ==> sameSeq(br.stack1, atlock(br.stack1)) &&
-//@            len(br.queue1to0) == atlock(len(br.queue1to0)) + 1 && isCopy(br.queue1to0[atlock(len(br.queue1to0))], packet) &&
+//@            len(br.queue1to0) == atlock(len(br.queue1to0)) + 1 && isCopy(br.queue1to0[atlock(len(br.queue1to0))], packet) && fresh(base(br.queue1to0[atlock(len(br.queue1to0))])) &&
 //@            (forall k mathint :: {br.queue1to0[k]} 0 <= k && k < atlock(len(br.queue1to0)) ==> br.queue1to0[k] == atlock(br.queue1to0[k]))
 //@   ensures [d1.filter] !br.conn0.closing && !br.conn1.closing && fromID != 0 && atlock(br.dropNWrites1) <= 0 && atlock(br.reorderNWrites1) <= 0 && atlock(br.filterCB1) != nil ==> sameSeq(br.stack1, atlock(br.stack1)) &&
-//@            (sameSeq(br.queue1to0, atlock(br.queue1to0)) || (len(br.queue1to0) == atlock(len(br.queue1to0)) + 1 && isCopy(br.queue1to0[atlock(len(br.queue1to0))], packet) &&
+//@            (sameSeq(br.queue1to0, atlock(br.queue1to0)) || (len(br.queue1to0) == atlock(len(br.queue1to0)) + 1 && isCopy(br.queue1to0[atlock(len(br.queue1to0))], packet) && fresh(base(br.queue1to0[atlock(len(br.queue1to0))])) &&
 //@            (forall k mathint :: {br.queue1to0[k]} 0 <= k && k < atlock(len(br.queue1to0)) ==> br.queue1to0[k] == atlock(br.queue1to0[k]))))
 //@   ensures [d1.other] !br.conn0.closing && !br.conn1.closing && fromID != 0 ==> sameSeq(br.queue0to1, atlock(br.queue0to1)) && sameSeq(br.stack0, atlock(br.stack0))
 
